@@ -8,7 +8,7 @@
 (* or is exchanged in between).  A call is                                 *)
 (*   [in     |-> the input of the call in the vocabulary of UpdateFile     *)
 (*               (hist, h0, local0, fault, nw, flav as a sequence, url,    *)
-(*               rep),                                                     *)
+(*               rep, entry = the public function that was called),        *)
 (*    obs    |-> [fs |-> BOOLEAN, net |-> BOOLEAN]  which kinds of steps   *)
 (*               the recorder could observe,                               *)
 (*    events |-> <<[a, i, loc]>> the observed steps in order: a = action   *)
@@ -49,7 +49,8 @@ Rn == Tr.runs[run]
 SeqToSet(s) == {s[j] : j \in 1..Len(s)}
 InOf(t) == [hist |-> t.in.hist, h0 |-> t.in.h0, local0 |-> t.in.local0,
             fault |-> [k |-> t.in.fault.k, i |-> t.in.fault.i],
-            nw |-> t.in.nw, flav |-> SeqToSet(t.in.flav), url |-> t.in.url, rep |-> t.in.rep]
+            nw |-> t.in.nw, flav |-> SeqToSet(t.in.flav), url |-> t.in.url, rep |-> t.in.rep,
+            entry |-> t.in.entry]
 
 TInit == /\ tid \in 1..Len(Traces)
          /\ l = 1
